@@ -1,7 +1,7 @@
 """C07 - integrity checks reject corruption of what they protect (structural clauses)."""
 import re
 from .facts import op_local, Slice, place_fields, op_const
-from .lib import (enum_switches, must_pass, bool_switches, copies_of, assigns_variant, result_local, is_discarded, awaited)
+from .lib import (enum_switches, must_pass, bool_switches, copies_of, assigns_variant, result_local, is_discarded, awaited, receiver_fields_all)
 from .c05 import enum_switches_through, flows_to_consumer
 
 CRATES = None  # whole workspace
@@ -20,7 +20,10 @@ EXPLANATION = (
 
 ASSUMPTIONS = ["that each protected byte position is actually covered by the digest is value-level and not decided"]
 
-DIG = re.compile(r"^md5::compute$|\bDigest>?::finalize$|jenkins::hashlittle2?$|ContentKey::from_data$|EncodingKey::from_data$")
+DIG = re.compile(r"^md5::compute$|^md5::Context::(compute|finalize)$|\bDigest>?::finalize$|jenkins::hashlittle2?$|ContentKey::from_data$|EncodingKey::from_data$")
+FEED = re.compile(r"^md5::Context::consume$|\bDigest>?::(update|chain_update)$|\bUpdate>?::update$|\bWrite>?::write_all$")
+SERIALISER = re.compile(r"::(to_bytes|serialize|build|write_options|write_be|write_le|to_packed|to_vec_be)$")
+RAW_BUF = re.compile(r"^&(mut )?\[u8\]$|^&?bytes::bytes::Bytes$|^&?alloc::vec::Vec<u8>$")
 CMP = re.compile(r"\bPartialEq.*>?::(eq|ne)$|::eq$|::ne$|ct_eq$")
 
 # validators that protect an object the property lists: (self type regex or None, item) -> what it protects
@@ -282,6 +285,35 @@ def has_const_range(b, call):
     return False
 
 
+def hooks_fast_path(ctx, rule, b=None, okb=None, ck_refs=None):
+    """NgdpBytes::validate_with_hooks: before the content-key test, `valid` is reported only on the true edge of the test of the
+    `validated` flag (edge-sensitive: `validated || <anything else>` shares the target block but adds a second way in)"""
+    if b is None:
+        bs = [x for x in ctx.prog.find(self_ty=r"\bNgdpBytes\b", item="validate_with_hooks", closure=True) if x.coroutine]
+        if not ctx.anchor(rule, bs, "NgdpBytes::validate_with_hooks"):
+            return
+        b = bs[0]
+        ctx.saw(b)
+        okb = set(assigns_variant(b, "Ok"))
+        ck_refs = {s["p"][0] for i, j, s in b.stmts() if s["r"]["k"] == "Ref" and "content_key" in place_fields(s["r"]["p"])}
+    loads = [c for c in b.calls if re.search(r"\bAtomic(Bool)?(::<bool>)?::load$", c.name) and any("validated" in f for f in receiver_fields_all(b, c))]
+    if ctx.anchor(rule, loads, "load of NgdpBytes.validated in validate_with_hooks"):
+        succ2 = [list(v) for v in b.succ]
+        for c in loads:
+            rl, _ = result_local(b, c)
+            for (sbb, tt, ft) in bool_switches(b, rl):
+                succ2[sbb] = [x for x in succ2[sbb] if x != tt] if tt != ft else succ2[sbb]
+        ck_blocks = set()
+        for i, j, st in b.stmts():
+            if st["r"]["k"] == "Discr" and ("content_key" in place_fields(st["r"]["p"]) or st["r"]["p"][0] in ck_refs):
+                ck_blocks.add(i)
+        leak0 = b.reachable([0], avoid=ck_blocks, succ=succ2) & okb
+        ctx.check(not leak0, rule, [b.id, "fast-path-flag-only"], "the fast path reports valid only when the validated flag is set",
+                  "validate_with_hooks can return a `valid` verdict before looking at the content key on a path that did not see the validated flag set "
+                  "(an extra disjunct such as `|| self.data.is_empty()`): such a value is served without ever being hashed against its key", b.loc(),
+                  sample={"flag_loads": [c.loc() for c in loads]})
+
+
 def r5_hooks(ctx, cfg):
     rule = "C07.R5"
     ctx.rule(rule, "validate_with_hooks: a value carrying a content key is reported valid only through validate_content or the validated flag")
@@ -310,6 +342,7 @@ def r5_hooks(ctx, cfg):
                         some_edges.append(t["o"])
     if not ctx.anchor(rule, some_edges, "test of NgdpBytes.content_key in validate_with_hooks"):
         return
+    hooks_fast_path(ctx, rule, b, okb, ck_refs)
     vcb = {c.bb for c in vc}
     for e in some_edges:
         leak = b.reachable([e], avoid=vcb) & okb
@@ -406,7 +439,125 @@ def r7_content_cache(ctx, cfg):
             pass
 
 
+def r8_prevalidated(ctx, cfg):
+    """who may mint a value that is already marked validated for a content key: the constructors are discovered (an NgdpBytes
+    literal whose `validated` field is AtomicBool::new(true) and whose content_key is not the constant None); every call site in
+    library code must sit behind a successful validate_content in the same body"""
+    rule = "C07.R8"
+    ctx.rule(rule, "a pre-validated NgdpBytes (validated = true with a content key) is minted only behind a successful validate_content: "
+                   "serving paths wrap what they read as unvalidated and let validate_with_hooks hash it")
+    adt = [a for a in ctx.prog.adts.values() if a["name"].endswith("validation::NgdpBytes")]
+    if not ctx.anchor(rule, adt, "struct NgdpBytes"):
+        return
+    ctors = []
+    for b in ctx.prog.bodies.values():
+        if b.krate != "cascette_cache":
+            continue
+        for i, j, st in b.stmts():
+            r = st["r"]
+            if r["k"] == "Agg" and r.get("ak") == "adt" and r["adt"].endswith("validation::NgdpBytes") and "validated" in r.get("fields", []):
+                fi = r["fields"].index("validated")
+                ci = r["fields"].index("content_key") if "content_key" in r["fields"] else None
+                vo = r["o"][fi]
+                vl = op_local(vo)
+                true_init = False
+                if vl is not None:
+                    sl = Slice(b, [vl], transparent=re.compile(r"\bAtomic(Bool)?(::<bool>)?::new$"))
+                    true_init = any(o.get("ty") == "bool" and "v" in o and int(o["v"]) == 1 for o in sl.consts)
+                key_none = False
+                if ci is not None:
+                    ko = r["o"][ci]
+                    kl = op_local(ko)
+                    if kl is not None:
+                        ks = Slice(b, [kl], transparent=None)
+                        key_none = any(o.get("variant") == "None" for o in ks.consts) and not ks.args
+                if true_init and not key_none:
+                    ctors.append(b)
+    if not ctx.anchor(rule, ctors, "constructor of a pre-validated keyed NgdpBytes (from_validated_bytes)"):
+        return
+    names = {b.id for b in ctors}
+    n = 0
+    for b in ctx.prog.bodies.values():
+        if not b.krate.startswith("cascette_"):
+            continue
+        for c in b.calls:
+            if c.id in names:
+                n += 1
+                ctx.saw(b)
+                ctx.call_sites += 1
+                vc = [x for x in b.calls if re.search(r"ValidationHooks>?::validate_content$|\bvalidate_content$|\bContentKey::verify$", x.name)]
+                behind = False
+                for x in vc:
+                    rl, _ = result_local(b, x)
+                    for (ebb, m, other, via) in enum_switches_through(b, rl):
+                        if 0 in m and b.dominates(m[0], c.bb):
+                            behind = True
+                ctx.check(behind, rule, [b.id, "minted-behind-validation"], "pre-validated value minted behind a successful validation",
+                          "%s wraps bytes with %s (validated = true for a content key) without having validated them in this function: "
+                          "validate_with_hooks takes its already-validated fast path and the bytes actually read are never hashed - a corrupted "
+                          "backing file or a promoted bad copy is served as verified" % (ctx._stable(b.id), c.name.split("::")[-1]), c.loc())
+    ctx.info("C07.R8: %d constructor(s) of pre-validated keyed values, %d call site(s) in library code" % (len(ctors), n))
+
+
+def digest_inputs(b, d):
+    """operands whose bytes a digest call covers: its own data arguments, or - for an incremental context - the data arguments
+    of every feed call on the same context"""
+    if re.search(r"Context::(compute|finalize)$|Digest>?::finalize$", d.name):
+        recv = op_local(d.args[0]) if d.args else None
+        if recv is None:
+            return []
+        base = Slice(b, [recv], transparent=None).locals
+        out = []
+        for c in b.calls:
+            if FEED.search(c.name) and len(c.args) >= 2 and op_local(c.args[0]) is not None:
+                if Slice(b, [op_local(c.args[0])], transparent=None).locals & base:
+                    out.append(c.args[1])
+        return out
+    return list(d.args)
+
+
+def r9_hashed_bytes(ctx, cfg):
+    """validators that are handed the stored bytes hash THOSE bytes: a digest over a re-serialisation of the parsed value protects
+    only what the parser keeps (reserved / padding / non-canonical bytes fall out of the check)"""
+    rule = "C07.R9"
+    ctx.rule(rule, "in every validator that receives the raw stored bytes, each digest input derives from that buffer and passes no "
+                   "workspace serialiser (to_bytes / serialize / build / write_*) on the way")
+    vals = discover(ctx.prog)
+    n = 0
+    for vid in sorted(vals):
+        v = vals[vid]
+        b = v["body"]
+        raw = [i for i in range(1, b.argc + 1) if RAW_BUF.search(b.local_ty(i) or "")]
+        if not raw or b.root:
+            continue
+        for k, d in enumerate(v["digs"]):
+            ins = digest_inputs(b, d)
+            if not ins:
+                continue
+            reach_raw = False
+            sers = []
+            for o in ins:
+                l = op_local(o)
+                if l is None:
+                    continue
+                sl = Slice(b, [l], transparent=True)
+                if sl.args & set(raw):
+                    reach_raw = True
+                sers += [c for c in sl.calls if SERIALISER.search(c.name) and c.name.startswith("cascette_")]
+            if not reach_raw:
+                continue  # this digest is over something else (a key, a constant)
+            n += 1
+            ctx.saw(b)
+            ctx.check(not sers, rule, [b.id, "raw-bytes-hashed", d.name.split("::")[-1]], "the digest covers the stored bytes themselves",
+                      "%s hashes the output of %s instead of the bytes it was given: whatever the parser normalises or drops (reserved bytes, padding, "
+                      "non-canonical encodings) is no longer covered, so corruption there is accepted" % (ctx._stable(b.id), sers[0].name if sers else ""),
+                      d.loc(), sample={"validator": b.id, "digest": d.name, "inputs": len(ins)})
+    ctx.floor(rule, n, cfg.get("r9_floor", 3), "digests over a raw input buffer in validators")
+
+
 def run(ctx, cfg=CFG):
+    r8_prevalidated(ctx, cfg)
+    r9_hashed_bytes(ctx, cfg)
     r1_r2(ctx, cfg)
     r4_full_width(ctx, cfg)
     r5_hooks(ctx, cfg)
